@@ -360,6 +360,8 @@ class Exec(object):
         if c.t.kind == 'list':
             i = fresh_z('i', z3.IntSort())
             return Exists([i], And(0 <= i, i < list_len(c), self.equal(SV(c.t.args[0], Select(list_arr(c), i)), x)))
+        if c.t == ATOM and x.t == ATOM:        # substring test on opaque strings (a label contains the epsilon / blank symbol): uninterpreted relation
+            return T.str_contains(c.z, x.z)
         raise Unsupported('membership in %s' % c.t)
 
     def coerce(self, v, t):
@@ -732,6 +734,11 @@ class Exec(object):
             return self.big_union(p, g, e)
         if isinstance(f, ast.Attribute):
             # module-qualified calls
+            if isinstance(f.value, ast.Name) and f.value.id == 're' and f.attr == 'fullmatch' and len(e.args) == 2 and 're' not in p.env:
+                # matching a label against a regular expression: an uninterpreted relation between the (opaque) expression and the string
+                rx, sv = self.ev(p, e.args[0]), self.ev(p, e.args[1])
+                if rx.t == ATOM and sv.t == ATOM: return SV(BOOL, T.re_fullmatch(rx.z, sv.z))
+                raise Unsupported('re.fullmatch on %s, %s' % (rx.t, sv.t))
             if isinstance(f.value, ast.Name) and f.value.id in ('copy',) and f.attr == 'deepcopy':
                 return self.ev(p, e.args[0])      # value semantics: a deep copy is the same value (freshness: gvc.effects)
             if isinstance(f.value, ast.Name) and f.value.id == 'regexp' and f.attr in REGEXP_CTORS:
@@ -1146,7 +1153,12 @@ class Exec(object):
             g = wf(self, r).z
             conj = g.children() if z3.is_and(g) else [g]
             for i, cj in enumerate(conj):
-                self.oblig(p, 'ctor-%s-valid#%d:%d' % (cls, i + 1, e.lineno), 'safety', cj, e.lineno)
+                if self.c.raises is not None and not self.spec_mode and not self.has_bound_vars() and self.c.raise_witness.get('ctor#%d' % (i + 1), 0) is not None:
+                    # a failing validity assertion of the constructor is an exception like any other: justified by the `raises` condition
+                    self.oblig(p, 'ctor-%s-valid-or-raise-justified#%d:%d' % (cls, i + 1, e.lineno), 'post', Or(cj, self.raises_cond(p, 'ctor#%d' % (i + 1))), e.lineno)
+                    p.pc.append(cj)
+                else:
+                    self.oblig(p, 'ctor-%s-valid#%d:%d' % (cls, i + 1, e.lineno), 'safety', cj, e.lineno)
         return r
 
     # --- contract calls
@@ -1231,6 +1243,16 @@ class Exec(object):
             cur = [self.ev_spec_in(p, d, dict(p.old)).z for d in c.decreases]
             new = [self.ev_spec_in(p, d, dict(args)).z for d in c.decreases]
             self.oblig(p, 'call-%s-decreases:%d' % (c.name, line), 'decreases', lex_less(new, cur), line)
+        # 2b. exceptional exit of the callee: it raises exactly when its `raises` condition holds; the exception propagates (no handler in the
+        #     verified subset), so it must be justified by the caller's own `raises` condition; the path continues with the normal return
+        if c.raises is not None:
+            if self.has_bound_vars(): raise Unsupported('call of %s (may raise) under binders' % c.name)
+            rc = self.truth(self.ev_spec_in(p, c.raises, dict(args)))
+            if self.c.raises is not None:
+                self.oblig(p, 'call-%s-raise-justified:%d' % (c.name, line), 'post', Implies(rc, self.raises_cond(p, c.name)), line)
+            else:
+                self.oblig(p, 'call-%s-does-not-raise:%d' % (c.name, line), 'safety', Not(rc), line)
+            p.pc.append(Not(rc))
         # 3. result and post-state
         if c.pure:
             key = ','.join(args[n].t.key for n in c.params)
@@ -1349,7 +1371,7 @@ class Exec(object):
         if isinstance(tg, ast.Name):
             # alias of a field of a parameter that the contract allows to be modified
             if value_expr is not None and isinstance(value_expr, ast.Attribute) and isinstance(value_expr.value, ast.Name) \
-                    and value_expr.value.id in self.c.modifies and v.t.kind in ('set', 'map', 'list'):
+                    and value_expr.value.id in self.c.modifies and v.t.kind in ('set', 'map', 'list', 'rec'):
                 p.alias[tg.id] = (value_expr.value.id, value_expr.attr); p.env.pop(tg.id, None); return
             p.alias.pop(tg.id, None)
             if value_expr is not None and isinstance(value_expr, ast.Attribute) and isinstance(value_expr.value, ast.Name) \
@@ -1384,7 +1406,18 @@ class Exec(object):
         self.oblig(p, 'assert:%d' % st.lineno, 'safety', c, st.lineno)
         p.pc.append(c); return [p]
 
+    def raises_cond(self, p, site=None):
+        """the exceptional postcondition of the function under verification, over its entry state (for a site with a declared witness:
+        the disjunct that justifies it)"""
+        src = self.c.raises
+        if site is not None and site in self.c.raise_witness: src = self.c.raises_parts[self.c.raise_witness[site]]
+        return self.truth(self.ev_spec_in(p, src, dict(p.old)))
+
     def s_Raise(self, p, st):
+        if self.c.raises is not None:       # the function may raise, exactly when its `raises` condition holds on entry
+            rs = sorted((n.lineno, n.col_offset) for n in ast.walk(self.fn) if isinstance(n, ast.Raise))
+            self.oblig(p, 'raise-justified:%d' % st.lineno, 'post', self.raises_cond(p, 'raise#%d' % (rs.index((st.lineno, st.col_offset)) + 1)), st.lineno)
+            return []
         self.oblig(p, 'raise-unreachable:%d' % st.lineno, 'safety', BoolVal(False), st.lineno)
         return []
 
@@ -1431,6 +1464,9 @@ class Exec(object):
             # `return None` where a value is required: the contract says this path is infeasible
             self.oblig(p, 'return-none-unreachable@%d' % line, 'safety', BoolVal(False), line); return
         if rt is not None: v = self.coerce(v, rt)
+        if self.c.raises is not None:
+            for k_, part in enumerate(self.c.raises_parts):
+                self.oblig(p, 'return-only-if-not-raises#%d@%d' % (k_ + 1, line), 'post', Not(self.truth(self.ev_spec_in(p, part, dict(p.old)))), line)
         saved_res, saved_mode = self.result, self.spec_mode
         self.result, self.spec_mode = v, True
         try:
@@ -1473,6 +1509,9 @@ class Exec(object):
             for i in range(len(t.args)): out += self.type_inv(tup_get(v, i))
         elif t.kind == 'rec':
             for f_ in RECORDS[t.args[0]]: out += self.type_inv(rec_get(v, f_))
+        elif t.kind == 'map' and t.args[1].kind == 'list':       # lists stored as map values
+            k = fresh_z('k', sort_of(t.args[0]))
+            out.append(ForAll([k], list_len(SV(t.args[1], Select(map_val(v), k))) >= 0))
         return out
 
     def havoc(self, p, names):
